@@ -160,7 +160,7 @@ func (p *cparser) fail(format string, args ...any) {
 }
 
 func (p *cparser) peek() ctok { return p.toks[p.i] }
-func (p *cparser) next() ctok  { t := p.toks[p.i]; p.i++; return t }
+func (p *cparser) next() ctok { t := p.toks[p.i]; p.i++; return t }
 func (p *cparser) isOp(op string) bool {
 	t := p.peek()
 	return t.kind == "op" && t.text == op
